@@ -160,6 +160,109 @@ class C10(Spec):
         return vocab_table_obligations(repo, tabs, extras_only=True) + read_frame_obligations(repo, tabs)
 
 
+def write_frame_obligations(repo, tabs, roots, allowed, label):
+    """W: every mutation site in the functions reachable from `roots` has a receiver that is fresh in
+    the function, or is one of the explicitly allowed (unit, receiver) pairs."""
+    from pyvc import frames
+    kwfuncs = sorted({f for d in drafts.DRAFTS for f in tabs[d].keywords.values()} | {tabs[d].id_of for d in drafts.DRAFTS})
+    edges = {"validators:create.Validator.iter_errors": kwfuncs,
+             # established by RefResolver.__init__: _remote_cache wraps resolve_from_url, _urljoin_cache wraps urljoin
+             "validators:RefResolver.resolve": ["validators:RefResolver.resolve_from_url"]}
+    reach = frames.reachable(repo, roots, edges)
+    recs = []
+    for key in sorted(reach):
+        for w in frames.writes_of(repo, key):
+            ok = w.cls == "fresh" or any(key == u and (w.receiver == r or r == "*") for u, r in allowed)
+            recs.append({"name": "%s/W/%s:%s@%d" % (key, w.what, w.receiver, w.line), "kind": "W",
+                         "status": "discharged" if ok else "failed", "solver": "frames",
+                         "note": "%s: write to %s receiver %s (%s)" % (label, w.cls, w.receiver, w.what)})
+    recs.append({"name": "frames/W/reachable", "kind": "W", "status": "discharged" if len(reach) >= 40 else "failed", "solver": "frames",
+                 "note": "%d functions reachable from %s analysed" % (len(reach), roots)})
+    return recs, reach
+
+
+VALIDATION_ROOTS = ["validators:create.Validator.iter_errors", "validators:create.Validator.is_valid",
+                    "validators:create.Validator.validate", "validators:create.Validator.descend",
+                    "validators:create.Validator.is_type"]
+# receivers that validation may mutate: errors it owns, the resolver's scope stack and (under
+# cache_remote) store; `_set` assigns fields of the error it is called on
+VALIDATION_WRITES = [
+    ("validators:create.Validator.iter_errors", "error.schema_path"), ("validators:create.Validator.descend", "error.path"),
+    ("validators:create.Validator.descend", "error.schema_path"), ("exceptions:_Error._set", "self"),
+    ("validators:RefResolver.push_scope", "self._scopes_stack"), ("validators:RefResolver.pop_scope", "self._scopes_stack"),
+    ("validators:RefResolver.resolve_remote", "self.store.[]"), ("_utils:URIDict.__setitem__", "self.store.[]"),
+]
+
+
+class C05(Spec):
+    pid = "C05"
+    level = "proof"
+    design_ref = "DESIGN.md section 8 C05"
+    trusted = [
+        "contracts/structure.py: the expected result structure of each keyword function (one error per violation; comprehension over descend) taken from the property and Appendix A",
+        "meta-lemma (paper): structural equation of iter_errors + read frames + write frames => the errors of a schema object are the union over its keywords of the errors of the keyword alone with its siblings",
+        "iteration over a set (additionalProperties) has unspecified order: results compared as multisets there",
+    ]
+    assumptions = ["messages are compared only up to the formatter being a function of its arguments (text dropped by the extraction)",
+                   "sub-validations do not raise (exceptions are C03)"]
+    explanation = "Each keyword function's result sequence is proved equal to its expected comprehension (yield sites, loop ranges, guards, arguments of descend), the dispatch loop to the concatenation over the schema's members; read frames show no keyword consults a non-sibling key, write frames that no keyword function writes anything but the errors and lists it created."
+
+    def tasks(self, root, tier):
+        return (tasks_keywords.keyword_tasks(root, _tmo(tier)) +
+                tasks_core.core_tasks(root, 2 * _tmo(tier), which=("iter_errors",)))
+
+    def select(self, ob, r):
+        return "/F/structure" in ob["name"] or ob["kind"] == "P"
+
+    def failure_kinds(self):
+        return ("F",)
+
+    def table_obligations(self, repo, tabs):
+        w, _ = write_frame_obligations(repo, tabs, VALIDATION_ROOTS, VALIDATION_WRITES, "validation")
+        return read_frame_obligations(repo, tabs) + w
+
+
+class C06(Spec):
+    pid = "C06"
+    level = "proof"
+    design_ref = "DESIGN.md section 8 C06"
+    trusted = [
+        "contracts/structure.py: expected path / schema_path element for every descend call of every applicator (taken from the property: the index or key of the element descended into)",
+        "meta-lemma (paper): Loc(e, I, S) for all errors by induction over the schema from: keyword structure (path elements), descend (prepends exactly what it is given), iter_errors (_set fills unset fields only, prepends the keyword except for `if`/`$ref`), _Error.__init__ (parent links)",
+        "collections.deque: appendleft/extend/extendleft(reversed(q)) == q ++ self (assumed contract)",
+    ]
+    assumptions = ["absolute_path / absolute_schema_path / json_path and the parent links are checked by the bounded stand-in only (executable Loc on the real error objects over the directed pools), labelled bounded",
+                   "documented exceptions of the property (draft-3 required, propertyNames, false schema) are written into the expected structures"]
+    explanation = "Every applicator's descend call is proved to carry the instance index/key and schema index/key of the element it descends into; descend prepends exactly those; iter_errors fills keyword/value/instance/schema only where unset and prepends the keyword; _set is proved to assign unset fields only."
+
+    def tasks(self, root, tier):
+        return (tasks_keywords.keyword_tasks(root, _tmo(tier)) +
+                tasks_core.core_tasks(root, 2 * _tmo(tier), which=("iter_errors", "descend")) +
+                [tasks_core.CoreTask(root, 7, "err_set", _tmo(tier))])
+
+    def select(self, ob, r):
+        return "/F/structure" in ob["name"] or "err_set" in r["task"] or (ob["kind"] == "P" and "descend" in ob["name"])
+
+    def failure_kinds(self):
+        return ("F",)
+
+    def standins(self, root, tier):
+        from pyvc import driver
+        out = []
+        kws = ["items", "properties", "anyOf", "additionalItems", "dependencies", "patternProperties", "oneOf", "allOf", "if", "propertyNames", "type"]
+        fails, tried = [], 0
+        for d in drafts.DRAFTS:
+            for k in kws:
+                if k not in drafts.VOCAB[d]:
+                    continue
+                r = driver.rt_call("pyvc.rt_kw", {"cmd": "search", "mode": "errors", "root": root, "draft": d, "keyword": k, "limit": 1}, root, timeout=3000)
+                tried += r["tried"]
+                fails += r["failures"]
+        out.append({"name": "Loc-on-real-errors", "scope": "directed pools (about %d value x sibling x instance cases per keyword) x %d keywords x 4 drafts; every error incl. context: absolute paths, parent links, json_path, navigation" % (60 * 50, len(kws)),
+                    "cases": tried, "failures": fails, "replay_kind": "kw", "label": "bounded (not counted as proof)"})
+        return out
+
+
 class C08(Spec):
     pid = "C08"
     level = "proof"
@@ -192,4 +295,4 @@ class C08(Spec):
         return out
 
 
-SPECS = {"C01": C01, "C03": C03, "C08": C08, "C09": C09, "C10": C10}
+SPECS = {"C01": C01, "C03": C03, "C05": C05, "C06": C06, "C08": C08, "C09": C09, "C10": C10}
